@@ -160,8 +160,8 @@ macro_rules! path_ascii {
     )*};
 }
 path_ascii! {
-    c14_path_ascii_0 = 0, 4; c14_path_ascii_1 = 1, 4; c14_path_ascii_2 = 2, 5; c14_path_ascii_3 = 3, 6;
-    c14_path_ascii_4 = 4, 7; c14_path_ascii_5 = 5, 8; c14_path_ascii_6 = 6, 9; c14_path_ascii_7 = 7, 10;
+    c14_path_ascii_0 = 0, 3; c14_path_ascii_1 = 1, 3; c14_path_ascii_2 = 2, 4; c14_path_ascii_3 = 3, 4;
+    c14_path_ascii_4 = 4, 5; c14_path_ascii_5 = 5, 6; c14_path_ascii_6 = 6, 7; c14_path_ascii_7 = 7, 8;
 }
 
 // K components of two symbolic ASCII bytes each (no '/' inside a component, so the shape is fixed):
